@@ -772,9 +772,11 @@ func (elems *ElementsNR) add(toAdd ElementsNR) {
 		emap[elem.Pos.MapKey()] = i
 	}
 	for _, elem := range toAdd {
-		i, found := emap[elem.Pos.MapKey()]
+		key := elem.Pos.MapKey()
+		i, found := emap[key]
 		if !found {
 			*elems = append(*elems, *elem.Copy())
+			emap[key] = len(*elems) - 1 // a later element of toAdd at this position replaces this one
 		} else {
 			(*elems)[i] = elem
 		}
@@ -862,9 +864,11 @@ func (elems *Elements) add(toAdd Elements) {
 		emap[elem.Pos.MapKey()] = i
 	}
 	for _, elem := range toAdd {
-		i, found := emap[elem.Pos.MapKey()]
+		key := elem.Pos.MapKey()
+		i, found := emap[key]
 		if !found {
 			*elems = append(*elems, *elem.Copy())
+			emap[key] = len(*elems) - 1 // a later element of toAdd at this position replaces this one
 		} else {
 			(*elems)[i] = elem
 		}
@@ -1774,11 +1778,18 @@ func (d *Data) storeLabelElements(ctx *datastore.VersionedCtx, batch storage.Bat
 			emap[elem.Pos.MapKey()] = i
 		}
 		for _, elem := range additions {
-			i, found := emap[elem.Pos.MapKey()]
+			key := elem.Pos.MapKey()
+			i, found := emap[key]
 			if !found {
 				elems = append(elems, elem)
+				emap[key] = len(elems) - 1 // a later addition at this position replaces this one
 				delta.Add = append(delta.Add, ElementPos{Label: label, Kind: elem.Kind, Pos: elem.Pos})
 			} else {
+				if elems[i].Kind != elem.Kind {
+					// subscribers count elements per kind
+					delta.Del = append(delta.Del, ElementPos{Label: label, Kind: elems[i].Kind, Pos: elem.Pos})
+					delta.Add = append(delta.Add, ElementPos{Label: label, Kind: elem.Kind, Pos: elem.Pos})
+				}
 				elems[i] = elem // replace properties if same position
 			}
 		}
